@@ -259,7 +259,35 @@ def run_case(ctx, rng, fmt, data: bytes, cfg, kind):
     signal.setitimer(signal.ITIMER_VIRTUAL, 0)
 
 
+# Fixed documents (both tiers): shapes of valid input the generators reach rarely.
+DIRECTED = [
+  # two regions whose content never ends: the last ISD, which has no end, shows both
+  ("ttml", b"""<?xml version="1.0" encoding="UTF-8"?>
+<tt xml:lang="en" xmlns="http://www.w3.org/ns/ttml" xmlns:tts="http://www.w3.org/ns/ttml#styling">
+ <head><layout>
+  <region xml:id="top" tts:origin="10% 10%" tts:extent="80% 20%"/>
+  <region xml:id="bottom" tts:origin="10% 70%" tts:extent="80% 20%" tts:displayAlign="after"/>
+ </layout></head>
+ <body><div>
+  <p region="top" begin="1s">first <span tts:fontStyle="italic">open</span></p>
+  <p region="bottom" begin="2s">second open</p>
+  <p region="bottom" begin="0.5s" end="1.5s">closed</p>
+ </div></body>
+</tt>"""),
+  # the same, one of the two ends
+  ("ttml", b"""<?xml version="1.0" encoding="UTF-8"?>
+<tt xml:lang="en" xmlns="http://www.w3.org/ns/ttml" xmlns:tts="http://www.w3.org/ns/ttml#styling">
+ <head><layout><region xml:id="a" tts:extent="50% 50%"/><region xml:id="b" tts:origin="50% 50%" tts:extent="50% 50%"/></layout></head>
+ <body><div region="a"><p begin="1s">A</p></div><div region="b"><p begin="1s" end="3s">B</p><p begin="3s">C</p></div></body>
+</tt>"""),
+]
+
+
 def run(ctx, params):
+  if params["shard"] == 0:
+    for k, (fmt, data) in enumerate(DIRECTED):
+      ctx.count("class:directed")
+      run_case(ctx, ctx.rng("directed", k), fmt, data, None, "directed")
   corpus = corpus_files()
   fmts = ["ttml", "scc", "stl", "srt", "vtt"]
   tier = ctx.tier
